@@ -15,6 +15,7 @@ mod registers;
 mod setting;
 mod socket;
 
+mod m_bus;
 mod m_cost;
 mod util;
 
@@ -32,6 +33,9 @@ pub trait Mode {
 fn mode_for(name: &str) -> Option<Box<dyn Mode>> {
     match name {
         "cost" => Some(Box::new(m_cost::CostMode::new())),
+        "bus09" => Some(Box::new(m_bus::BusMode::new(9))),
+        "bus16" => Some(Box::new(m_bus::BusMode::new(16))),
+        "bus17" => Some(Box::new(m_bus::BusMode::new(17))),
         _ => None,
     }
 }
@@ -153,6 +157,7 @@ fn main() {
 fn mode_of_case(word: &str) -> &str {
     match word {
         "cost" => "cost",
+        "sweep09" => "bus09",
         w => w,
     }
 }
